@@ -27,6 +27,8 @@ func c11(c *eng.Ctx, r *eng.Report) {
 		"R11.10 callGas/authCallGas return min(request, a - a/64) with a = available - base, and the four call-family gas functions call callGas(true, contract.Gas, …). " +
 		"R11.11 a precompile runs only after the caller paid for it, and the price compared with the supplied gas is RequiredGas(input) itself — no unchecked arithmetic between pricing and the affordability test (the precompiles size their allocations from the input on the strength of that price: MODEXP allocates what the header announces); " +
 		"R11.20 the interpreter looks at the stack only after it has validated its depth: every Stack accessor call in (*EVMInterpreter).Run (Back, peek, pop) is dominated by the false edge of `sLen < operation.minStack` — the read-only check reads stack.Back(2) for CALL, and ahead of the validation a CALL with fewer than three items in a static frame panics instead of failing with ErrStackUnderflow; " +
+		"R11.22 the memory size is rounded to words without wrapping: in Run the value handed to dynamicGas and Memory.Resize is the product of an overflow-reporting multiplication (utility.SafeMul) whose overflow edge leaves the frame — toWordSize(size)·32 wraps to 0 for a size in [2^64−31, 2^64−1], nothing is charged or resized, and the opcode body indexes an empty store; " +
+		"R11.23 a precompile's price lookup stays inside its table: every index of the form k−1 into a package-level table in contracts.go is computed only where k != 0 has been established in the same function — a pair count of 0 (input shorter than one pair) otherwise reads table[−1] and panics before Run can refuse the length; " +
 		"R11.21 a call-family gas function that succeeds has set the gas it forwards: every nil-error return of a dynamic-gas function that stores evm.callGasTemp is preceded on every path by that store — the field is EVM-wide, and a fast path that skips the store makes opCall forward what the previous call-family instruction left there: gas the caller never paid for, returned to it afterwards, so gas grows inside a frame; " +
 		"R11.19 a zero-length memory operand touches nothing: in every Memory accessor that takes a size (Set, GetCopy, GetPtr, Copy) each slice expression over the backing store is dominated by the test that the size is non-zero — a zero-length range has memory size 0 whatever its offset, so nothing has bounded the offset (LOG0 or CREATE with offset 2^63 and size 0 reach GetCopy with a negative offset); " +
 		"R11.18 the fixed-width word setters get the bytes they read: every (*uint256.Int).SetBytesN(b) call in the vm package (SetBytes32 reads b[31] unconditionally) is handed a slice whose length is statically at least N — a slice of an array of N or more bytes, or a make of constant length; finding F28: BLOBHASH called SetBytes32 with an empty slice and PUSH1 0, BLOBHASH panicked through EVM.Call; " +
@@ -57,6 +59,8 @@ func c11(c *eng.Ctx, r *eng.Report) {
 	c11ZeroSizeTouchesNothing(c, r)
 	c11StackCheckedFirst(c, r)
 	c11CallGasAlwaysSet(c, r)
+	c11MemoryRoundingChecked(c, r)
+	c11TableIndexGuarded(c, r)
 	c11ModulusNonZero(c, r)
 	c11UnsignedSign(c, r)
 	c11CodeHashOfCode(c, r)
@@ -1779,5 +1783,115 @@ func c11CallGasAlwaysSet(c *eng.Ctx, r *eng.Report) {
 			}
 		}
 		r.Check(bad == "", rule, "call-gas-set:"+eng.FuncName(fn), c.Pos(fn.Pos()), "every successful return follows the callGasTemp store", eng.FuncName(fn)+" can return success (at "+bad+") without having stored evm.callGasTemp: the opcode handler forwards whatever the previous call-family instruction of the transaction left in that EVM-wide field — the callee runs on gas the caller was never charged, the unspent part is added to the caller on return, GAS reads higher after the CALL than before it, and a loop of such calls never runs out of gas")
+	}
+}
+
+// c11MemoryRoundingChecked: see R11.22.
+func c11MemoryRoundingChecked(c *eng.Ctx, r *eng.Report) {
+	const rule = "R11.22"
+	r.Min(rule, 1)
+	run := c.Func("vm", "(*EVMInterpreter).Run")
+	if !r.Anchor(run != nil, rule, "vm.(*EVMInterpreter).Run") {
+		return
+	}
+	n, bad := 0, ""
+	for _, s := range eng.Sites(run) {
+		if !strings.HasSuffix(s.Name(), "vm.Memory).Resize") {
+			continue
+		}
+		n++
+		size := s.Common().Args[1]
+		// every non-zero source of the size is the first result of SafeMul, and the call sits on its no-overflow edge
+		seen := map[ssa.Value]bool{}
+		var ok func(v ssa.Value, d int) bool
+		ok = func(v ssa.Value, d int) bool {
+			if v == nil || d > 6 {
+				return false
+			}
+			if seen[v] {
+				return true
+			}
+			seen[v] = true
+			switch x := v.(type) {
+			case *ssa.Const:
+				return true
+			case *ssa.Phi:
+				for _, e := range x.Edges {
+					if !ok(e, d+1) {
+						return false
+					}
+				}
+				return true
+			case *ssa.Extract:
+				if call, isC := x.Tuple.(*ssa.Call); isC && x.Index == 0 && strings.HasSuffix(eng.CallName(&call.Call), "utility.SafeMul") {
+					return true
+				}
+			}
+			return false
+		}
+		if !ok(size, 0) {
+			bad = eng.Desc(size) + " at " + c.Pos(s.Pos())
+		}
+	}
+	r.Check(bad == "" && n >= 1, rule, "run:memory-rounding-checked", c.Pos(run.Pos()), "the size Run resizes memory to is a SafeMul product (or zero)", "Run resizes memory to "+bad+", a value not produced by the overflow-reporting multiplication: rounded with a plain ·32, an operand end offset in [2^64−31, 2^64−1] wraps to 0 — no gas is charged, memory is not grown, and MSTORE8/MLOAD/RETURN/SHA3 then index the empty store and panic where the frame used to end with ErrGasUintOverflow")
+}
+
+// c11TableIndexGuarded: see R11.23.
+func c11TableIndexGuarded(c *eng.Ctx, r *eng.Report) {
+	const rule = "R11.23"
+	r.Min(rule, 1)
+	n := 0
+	for _, fn := range c.PkgFuncs("vm") {
+		i := 0
+		for _, b := range fn.Blocks {
+			for _, in := range b.Instrs {
+				ia, ok := in.(*ssa.IndexAddr)
+				if !ok {
+					continue
+				}
+				g, isG := ia.X.(*ssa.Global)
+				if !isG {
+					continue
+				}
+				bo, isB := ia.Index.(*ssa.BinOp)
+				if !isB || bo.Op != token.SUB {
+					continue
+				}
+				if k, isK := eng.ConstInt(bo.Y); !isK || k != 1 {
+					continue
+				}
+				base := bo.X
+				if kb, isKB := eng.ConstInt(base); isKB && kb >= 1 {
+					continue // len(table) − 1
+				}
+				n++
+				key := fmt.Sprintf("table-index:%s#%d", eng.FuncName(fn), i)
+				i++
+				guarded := false
+				for _, cd := range eng.EdgeConds(b) {
+					m, isM := cd.Cmp()
+					if !isM {
+						continue
+					}
+					x, y, op := m.X, m.Y, m.Op
+					if eng.ResolveLocal(y) == eng.ResolveLocal(base) {
+						x, y = y, x
+						if op == token.LSS {
+							op = token.GTR
+						}
+					}
+					if eng.ResolveLocal(x) != eng.ResolveLocal(base) {
+						continue
+					}
+					if kk, isKK := eng.ConstInt(y); isKK && ((kk == 0 && (op == token.NEQ || op == token.GTR)) || (kk >= 1 && op == token.GEQ)) {
+						guarded = true
+					}
+				}
+				r.Check(guarded, rule, key, c.Pos(ia.Pos()), "the index k−1 is computed only where k != 0 holds", eng.FuncName(fn)+" reads "+g.Name()+"["+eng.Desc(bo.X)+" − 1] without having established in this function that "+eng.Desc(bo.X)+" is non-zero: for a count of 0 — a precompile called with less input than one element — the index is −1, the lookup panics, and the panic unwinds through EVM.Call instead of the call failing for its bad input length")
+			}
+		}
+	}
+	if n == 0 {
+		r.Pass(rule, "table-index:none", "", "no k−1 index into a package-level table in package vm")
 	}
 }
